@@ -186,11 +186,11 @@ impl BTree {
 //@| let ghost qb3 = queue@;
 //@proof after 1 "queue.push_back(left);"
 //@| lemma_push_all(pager, reach(old(out)), reach(out), qb3, cur, left, self.root.0);
-//@proof before 1 "queue.push_back(child);" raw
+//@proof? before 1 "queue.push_back(child);" raw
 //@| let ghost qb4 = queue@;
-//@proof after 1 "queue.push_back(child);"
+//@proof? after 1 "queue.push_back(child);"
 //@| lemma_push_all(pager, reach(old(out)), reach(out), qb4, cur, child, self.root.0);
-//@loop 2 iter it2
+//@loop? 2 iter it2
 //@| invariant tree_pages_ok(pager), page.b() == pg(pager, cur), pg_kind_ok(page.b()), page.b()[4] == 0, leaf_wf(page.b()),
 //@|     reach(old(out)).subset_of(reach(out)), self.root.0 != 0, reach(out).contains(self.root.0) || in_q(queue@, self.root.0),
 //@|     forall|k: int| 0 <= k < queue@.len() ==> #[trigger] queue@[k].0 != 0,
@@ -199,14 +199,14 @@ impl BTree {
 //@|     cur != 0, !reach(out).contains(0) || reach(old(out)).contains(0), sink_wanted(&payloads),
 //@|     collected_except(pager, reach(old(out)), reach(out), sink_log(&payloads), cur),
 //@|     forall|j: int| 0 <= j < it2.index@ ==> log_has(sink_log(&payloads), #[trigger] leaf_cells(page.b())[j].1),
-//@proof before 1 "payloads.push(v);" raw
+//@proof? before 1 "payloads.push(v);" raw
 //@| let ghost lg = sink_log(&payloads);
-//@proof after 1 "payloads.push(v);"
+//@proof? after 1 "payloads.push(v);"
 //@| lemma_collected_push(pager, reach(old(out)), reach(out), lg, cur, v);
 //@| assert forall|j: int| 0 <= j < it2.index@ + 1 implies log_has(sink_log(&payloads), #[trigger] leaf_cells(page.b())[j].1) by {
 //@|     lemma_log_push(lg, v, leaf_cells(page.b())[j].1);
 //@| }
-//@loop 3 iter it3
+//@loop? 3 iter it3
 //@| invariant tree_pages_ok(pager), page.b() == pg(pager, cur), pg_kind_ok(page.b()), page.b()[4] == 1, internal_wf(page.b()),
 //@|     reach(old(out)).subset_of(reach(out)), self.root.0 != 0, reach(out).contains(self.root.0) || in_q(queue@, self.root.0),
 //@|     forall|k: int| 0 <= k < queue@.len() ==> #[trigger] queue@[k].0 != 0,
